@@ -23,6 +23,10 @@ Leaves == {
   [t |-> "model", home |-> H("M", <<"Outer", "Mid", "Deep">>), fields |-> << [name |-> "x", v |-> P("int:5"), dflt |-> P("none")] >>]
 }
 Seqs == {[t |-> "seq", kind |-> k, items |-> it] : k \in {"list", "tuple"}, it \in {<<>>} \cup {<<a>> : a \in Leaves} \cup {<<P("int:5"), P("int:6")>>}}
+        \cup
+        \* sets and frozensets (hashable members only; Python's == does not tell a set from a frozenset, a list it does)
+        {[t |-> "seq", kind |-> k, items |-> it] : k \in {"set", "frozenset"},
+                                                     it \in {<<>>} \cup {<<a>> : a \in {l \in Leaves : l.t # "model"}} \cup {<<P("int:5"), P("int:6")>>}}
 \* dict-valued members: str keys, and keys that are objects needing an import (a QName, an enum member)
 KeyLeaves == {P("str:quote'\"\\n"), CHOOSE l \in Leaves : l.t = "obj" /\ l.tag = "qname", CHOOSE l \in Leaves : l.t = "enum" /\ l.home.path = <<"Color">>}
 Maps == {[t |-> "map", items |-> <<>>]} \cup {[t |-> "map", items |-> << <<k, P("int:5")>> >>] : k \in KeyLeaves}
